@@ -241,7 +241,10 @@ func (ct *ContractTable) parseLines(lines []rawLine, pkg string) error {
 				return errf("%v", err)
 			}
 			c.Params, c.Results, c.Tags = params, results, tags
-			if kw == "functype" {
+			if kw == "functype" && strings.Contains(name, ":") {
+				k := strings.LastIndex(name, ":")
+				c.Key = "functype:" + qualifyFuncKey(name[:k], pkg) + ":" + name[k+1:]
+			} else if kw == "functype" {
 				c.Key = "functype:" + qualifyTypeName(name, pkg)
 			} else {
 				c.Key = qualifyFuncKey(name, pkg)
